@@ -66,11 +66,25 @@ def enc(df, covs, fl=True):
                 obs=enc_list(df['S'].astype(int).tolist(), str))
 
 
-def estimators(df, covs, g, stab, treat, which):
+def estimators(df, covs, g, stab, treat, which, grepr=bool):
+    """grepr: how the boolean option `generalize` is handed over (bool / numpy.bool_ / int: all legitimate truth values)"""
     from zepid.causal.generalize import IPSW, GTransportFormula, AIPSW
     cols = covs + ['A', 'Y', 'S']
     sc = gen.sat_cov(covs)
-    if which == 'IPSW':
+    g = grepr(g)
+    if which == 'IPSW' and treat == 'column':
+        # treatment weights supplied as a precomputed IPTW column (saturated treatment model fitted on the sample by the
+        # harness), no treatment_model() call
+        d2 = df[cols].copy()
+        smp = d2['S'] == 1
+        sid = pd.Series(gen.strata_ids(d2, covs), index=d2.index)
+        p = d2.loc[smp, 'A'].groupby(sid[smp]).transform('mean')
+        d2['tw'] = 1.0
+        d2.loc[smp, 'tw'] = np.where(d2.loc[smp, 'A'] == 1, 1 / p, 1 / (1 - p))
+        e = IPSW(d2, exposure='A', outcome='Y', selection='S', generalize=g, weights='tw')
+        e.sampling_model(sc, stabilized=stab, print_results=False)
+        e.fit()
+    elif which == 'IPSW':
         e = IPSW(df[cols], exposure='A', outcome='Y', selection='S', generalize=g)
         e.sampling_model(sc, stabilized=stab, print_results=False)
         e.treatment_model(sc, stabilized=stab, print_results=False)
@@ -154,7 +168,7 @@ def run(chk, drv, rng, tier):
                                              Fraction(rep['tr0'])) == (cf[(True, 1)], cf[(True, 0)], cf[(False, 1)],
                                                                        cf[(False, 0)]),
                   'Lean std over generalize/transport targets (exact) = independent closed form', {'data': rec, 'model': rep})
-        for which, treats in (('IPSW', (True,)), ('GTransportFormula', (None,)), ('AIPSW', (True, False))):
+        for which, treats in (('IPSW', (True, 'column')), ('GTransportFormula', (None,)), ('AIPSW', (True, False))):
             for g in (True, False):
                 for stab in ((True, False) if which != 'GTransportFormula' else (None,)):
                     for treat in treats:
@@ -165,7 +179,9 @@ def run(chk, drv, rng, tier):
                         chk.count('%s/%s%s%s' % (which, 'generalize' if g else 'transport',
                                                  '' if stab is None else ('/stab' if stab else '/unstab'),
                                                  '' if treat is None else ('/treat' if treat else '/notreat')))
-                        e = estimators(dfn, covs, g, stab, treat, which)
+                        grepr = [bool, np.bool_, int][int(rng.integers(0, 3))]
+                        case['generalize_passed_as'] = grepr.__name__
+                        e = estimators(dfn, covs, g, stab, treat, which, grepr)
                         ej = estimators(dfj, covs, g, stab, treat, which)
                         want_rd = float(cf[(g, 1)] - cf[(g, 0)])
                         want_rr = float(cf[(g, 1)] / cf[(g, 0)])
@@ -184,7 +200,8 @@ def run(chk, drv, rng, tier):
                         chk.d(close(ea.risk_difference, want_rd, **TOL) and close(ea.risk_ratio, want_rr, **TOL),
                               '%s with A and Y recorded outside the sample still standardizes the sample cell means' % which,
                               dict(case, impl_AY=[float(ea.risk_difference), float(ea.risk_ratio)]))
-                        model_k(chk, drv, e, dfn, covs, g, stab, which, case)
+                        if treat != 'column':
+                            model_k(chk, drv, e, dfn, covs, g, stab, which, case)
 
 
 def replay(rec):
@@ -197,7 +214,8 @@ def replay(rec):
         dfn, _ = combined(np.random.default_rng(seed), junk=False)
         cf = closed_form(dfn, covs)
         with common.quiet():
-            e = estimators(dfn, covs, c['generalize'], c['stabilized'], c['treatment_model'], c['estimator'])
+            grepr = {'bool': bool, 'bool_': np.bool_, 'int': int}.get(c.get('generalize_passed_as', 'bool'), bool)
+            e = estimators(dfn, covs, c['generalize'], c['stabilized'], c['treatment_model'], c['estimator'], grepr)
             ej = estimators(dfj, covs, c['generalize'], c['stabilized'], c['treatment_model'], c['estimator'])
         g = c['generalize']
         print(f['what'], '| impl RD/RR', float(e.risk_difference), float(e.risk_ratio), '| junk-Y variant',
